@@ -20,6 +20,7 @@
 From TV Require Import Base.Result Base.Bytes Core.Types Core.TracerState Core.Strategy Packet.Checksum.
 From TV Require Import Net.RecvCommon Net.Recv4 Net.Recv6 Net.Recv Net.RfcPeer Net.ProbeShape.
 From TV Require Import Proofs.RecvProofs Proofs.RecvRoundtrip.
+From TV Require Import Net.TcpSockets Proofs.TcpSocketsProofs.
 
 (* ---------------------------------------------------------------- ICMP / IPv4 *)
 Theorem c02_icmp4_error_roundtrip : forall c sc now me p src tos ttl hck seq ick payload pre pat k,
@@ -168,6 +169,27 @@ Theorem c02_unprivileged_udp_carries_no_sequence_refuted : forall c size tos ini
   rc_proto c = Udp -> rc_privileged c = false ->
   probe_sendto c size tos initseq seq1 tid sp dp ttl flags = probe_sendto c size tos initseq seq2 tid2 sp dp ttl flags.
 Proof. intros c size tos initseq tid sp dp ttl flags seq1 seq2 tid2 Hp Hu. unfold probe_sendto. rewrite Hp, Hu. reflexivity. Qed.
+
+(* the array of pending TCP probe sockets (Channel::tcp_probes): whatever was dispatched and however much time passed,
+   recv_tcp_sockets reports the FIRST socket that has an outcome among those that have not timed out, with exactly the
+   ports recorded when that probe was dispatched (so c02_tcp_socket_roundtrip applies to it), removes exactly that
+   entry and keeps the order of the others; a socket that is still connecting is never reported; a full array makes
+   dispatch return InsufficientCapacity *)
+Theorem c02_tcp_socket_array : forall c now timeout l,
+  let alive := filter (tcp_alive now timeout) l in
+  let '(l', res) := recv_tcp_sockets_list c now timeout l in
+  (exists a e b o, alive = a ++ e :: b /\ l' = a ++ b /\ te_state e = SockReady o /\
+      Forall (fun x => te_state x = SockPending) a /\ res = recv_tcp_socket c now o (te_sp e) (te_dp e))
+  \/ (l' = alive /\ res = Ok None /\ Forall (fun x => te_state x = SockPending) alive).
+Proof. exact recv_tcp_sockets_list_spec. Qed.
+
+Theorem c02_tcp_socket_array_bounded : forall l e, (length l <= MAX_TCP_PROBES)%nat ->
+  match tcp_push l e with
+  | Ok l' => l' = l ++ [e] /\ (length l' <= MAX_TCP_PROBES)%nat
+  | Err x => x = EInsufficientCapacity /\ length l = MAX_TCP_PROBES
+  | Fault _ => False
+  end.
+Proof. exact tcp_push_spec. Qed.
 
 (* ---------------------------------------------------------------- supporting facts *)
 (* every structurally well-formed RFC 4884 / RFC 4950 extension structure parses (so [ext_conforming] is not vacuous) *)
